@@ -5,6 +5,7 @@ fake MongoDB) on histories generated interactively from one PRNG; every observat
 compared with the model in Coq (Charging/CorrChf.v) and the property monitors are
 evaluated on the implementation's own trace (here)."""
 import json
+import re
 import os
 import sys
 import random
@@ -497,6 +498,17 @@ def evaluate(ctx, hs, shards=8):
     return run_case_files(files, ctx.workdir, timeout=3000)
 
 
+def domain_count(ctx, hs):
+    """how many of the histories satisfy the hypotheses of C01_history (history_okb, evaluated in Coq)"""
+    fn = "DomCases.v"
+    with open(os.path.join(ctx.workdir, fn), "w") as f:
+        f.write(HEADER + "Definition cases : list hcase := [\n" + ";\n".join(history_to_coq(h) for h in hs) +
+                "\n].\nDefinition D := Eval vm_compute in in_domain cases.\nPrint D.\n")
+    rc, out = sh(["coqc", "-Q", COQ, "Verif", fn], cwd=ctx.workdir, timeout=1800)
+    m = re.search(r"D = \((\d+)(?:%Z)?, (\d+)(?:%Z)?\)", re.sub(r"\s+", " ", out))
+    return (int(m.group(1)), int(m.group(2))) if m else None
+
+
 # ---------------------------------------------------------------- monitors (on the implementation's own trace)
 
 def online_used(req, rg):
@@ -782,6 +794,7 @@ def run(ctx, replay=None):
     if not okc and ctx.proof_broken is None:
         raise RuntimeError("case evaluation failed:\n" + "\n".join(logs)[:3000])
     byh = {h.hid: h for h in hs}
+    dom = domain_count(ctx, hs) if (pid == "C01" and okc) else None
     corr = sorted(t for t in mism if t[2] in codes)
     mons = []
     for h in hs:
@@ -790,6 +803,8 @@ def run(ctx, replay=None):
                 mons.append((h.hid, step, key, what))
     fstats = None
     extra_cov = {}
+    if dom:
+        extra_cov["histories_in_domain_of_C01_history"] = {"satisfy_history_ok": dom[0], "of": dom[1]}
     if pid == "C02":
         okb, logb = go_build(["tscorr"])
         if not okb:
